@@ -404,11 +404,11 @@ fn cells(tier: Tier, seed: u64) -> Vec<Cell> {
 }
 
 pub fn checks() -> Vec<Box<dyn DynCheck>> {
-    vec![Box::new(Usability), Box::new(Rates { known: Known::load() }), Box::new(super::extendpaths::DefaultCtors)]
+    vec![Box::new(Usability), Box::new(Rates { known: Known::load() }), Box::new(super::extendpaths::DefaultCtors), Box::new(super::giant::Giant)]
 }
 
 pub fn run(ctx: &Ctx) {
-    ctx.set_rule("usability: generated (constructor, n, p) over the whole plane incl. p > 0.5 and n <= 3 (n in {1,2,3,10,50,1000} + random < 3000; p from fixed list + log-uniform down to 1e-9): constructor returns, Bloom k() >= 1 and m() >= 1, insert/query/len do not panic, all n distinct inserts are accepted (cuckoo: no Full) and found. rates: cells (constructor, n, p) / quotient (q, r, fill) measured over many seeded SipHash hashers x disjoint probe sets (incl. cells with p = 1e-4, 1e-5, 1e-6 and 2e6..4e7 probes); per-seed false-positive fraction, mean tested against p (cuckoo), 1.3p (Bloom, n >= 50), len()*2^-(q+r) (quotient) at z = 6 with cluster-robust s.e. and a 4x confirmation with fresh seeds; Bloom len() RMS relative error <= 5% at partial fills for n >= 1000. Non-trivial: usability cases with p > 0.5 or n <= 3; rate cells with >= 100 expected false positives at the bound. Distinct = cell / case hash. evaluations = cases + probes. default_constructors: BloomFilter::with_properties / with_params and CuckooFilter::with_properties_4 / _8 / with_params (no hasher argument) against their _and_hash counterparts given BuildHasherDefault<DefaultHasher>: same derived parameters (m, k / bucketsize, n_buckets, l_fingerprint), getters echo explicit parameters, and the same insert/query answers on up to 300 keys and 300 probes.");
+    ctx.set_rule("usability: generated (constructor, n, p) over the whole plane incl. p > 0.5 and n <= 3 (n in {1,2,3,10,50,1000} + random < 3000; p from fixed list + log-uniform down to 1e-9): constructor returns, Bloom k() >= 1 and m() >= 1, insert/query/len do not panic, all n distinct inserts are accepted (cuckoo: no Full) and found. rates: cells (constructor, n, p) / quotient (q, r, fill) measured over many seeded SipHash hashers x disjoint probe sets (incl. cells with p = 1e-4, 1e-5, 1e-6 and 2e6..4e7 probes); per-seed false-positive fraction, mean tested against p (cuckoo), 1.3p (Bloom, n >= 50), len()*2^-(q+r) (quotient) at z = 6 with cluster-robust s.e. and a 4x confirmation with fresh seeds; Bloom len() RMS relative error <= 5% at partial fills for n >= 1000. Non-trivial: usability cases with p > 0.5 or n <= 3; rate cells with >= 100 expected false positives at the bound. Distinct = cell / case hash. evaluations = cases + probes. default_constructors: BloomFilter::with_properties / with_params and CuckooFilter::with_properties_4 / _8 / with_params (no hasher argument) against their _and_hash counterparts given BuildHasherDefault<DefaultHasher>: same derived parameters (m, k / bucketsize, n_buckets, l_fingerprint), getters echo explicit parameters, and the same insert/query answers on up to 300 keys and 300 probes. giant_tables: with_properties for n in {2^31+5, 2^31+7, 2^32, 2^32+50} (Bloom p = 0.5, 0.1; cuckoo 4 and 8 at p = 0.5, 0.9): at least n bits / slots, 20 000 inserts succeed and stay present, at most 1.3*p of 20 000 probes reported present.");
     ctx.assume("frequencies are over SipHash seeds (BuildHasherSeeded-equivalent) and random 64-bit keys; inserted keys are even, probes odd, hence disjoint");
     let rates = Rates { known: Known::load() };
     ctx.run_regressions(&[&Usability, &rates]);
@@ -417,6 +417,8 @@ pub fn run(ctx: &Ctx) {
     // the constructors without a hasher argument build the same filter as the ones measured below
     ctx.run_random(&super::extendpaths::DefaultCtors, t.pick(4_000, 40_000), || super::extendpaths::default_ctor_strategy(&[0, 1, 2, 4, 5]));
     ctx.run_fixed(&rates, cells(t, ctx.seed));
+    // filters dimensioned for 2^31 .. 2^32 + 50 expected elements (lazily zeroed gigabyte tables)
+    ctx.run_fixed(&super::giant::Giant, super::giant::props_cases(ctx.seed));
     ctx.require_class("usability", "p>0.5", 0.15);
     ctx.require_class("usability", "n<=3", 0.1);
 }
